@@ -3,17 +3,17 @@ package secp256k1
 // Harness intrinsics.  Their bodies are trivial so that this file also compiles
 // natively; symx intercepts calls to them by name.
 
-func vNondetU64(name string) uint64         { return 0 }
-func vNondetByte(name string) byte          { return 0 }
-func vNondetBool(name string) bool          { return false }
-func vNondetBytes(name string, n int) []byte { return make([]byte, n) }
+func vNondetU64(name string) uint64              { return 0 }
+func vNondetByte(name string) byte               { return 0 }
+func vNondetBool(name string) bool               { return false }
+func vNondetBytes(name string, n int) []byte     { return make([]byte, n) }
 func vNondetHexString(name string, n int) string { return string(make([]byte, n)) }
-func vAssume(b bool)                         {}
-func vObserve(name string, v interface{})    {}
-func vFreeze(v interface{})                  {}
-func vTagArg(v interface{}, name string)     {}
-func vTagRecv(v interface{}, name string)    {}
-func vMark()                                 {}
+func vAssume(b bool)                             {}
+func vObserve(name string, v interface{})        {}
+func vFreeze(v interface{})                      {}
+func vTagArg(v interface{}, name string)         {}
+func vTagRecv(v interface{}, name string)        {}
+func vMark()                                     {}
 
 // vScalar returns a scalar whose four Montgomery limbs are arbitrary words.
 func vScalar(name string) *Scalar {
